@@ -101,6 +101,7 @@ class Dem:
             yield {"F": gen_F(rng), "gamma": gen_gamma(rng),
                    "repair": REPAIR_KINDS[t % 4] if bounded else None,
                    "mode": ["do-idx", "do-pop", "mutation"][rng.randint(3)], "warm": bool(rng.randint(3) == 0),
+                   "repair_as": ["name", "name", "name", "callable", "bad-name"][rng.randint(5)] if rng.randint(3) == 0 else "name",
                    "xl": xl, "xu": xu, "PX": PX, "idx": idx, "seed": int(rng.randint(2**31 - 1))}
 
     @staticmethod
@@ -113,7 +114,7 @@ class Dem:
     def run(case, replay=None):
         from pymoo.core.population import Population
         from pymoode.operators.dem import DEM
-        cfg = {k: case.get(k) for k in ("F", "gamma", "repair", "mode", "warm", "seed")}
+        cfg = {k: case.get(k) for k in ("F", "gamma", "repair", "mode", "warm", "repair_as", "seed")}
         rec = Record("dem", cfg, {k: case[k] for k in ("xl", "xu", "PX", "idx")})
         PX = np.array(case["PX"], dtype=float, copy=True)
         idx = np.array(case["idx"], dtype=int, copy=True)
@@ -127,10 +128,21 @@ class Dem:
         F = case["F"]
         if isinstance(F, list):
             F = tuple(F)
+        rep_arg = case["repair"] or "bounce-back"
+        if case.get("repair_as") == "callable":
+            from pymoode.operators import dem as _dm
+            rep_arg = _dm.REPAIRS[rep_arg]          # a callable is used as given
+        elif case.get("repair_as") == "bad-name":
+            rep_arg = "bounce_back"                 # not a registry key: must be refused with KeyError
         try:
-            op = DEM(F=F, gamma=case["gamma"], de_repair=case["repair"] or "bounce-back", n_diffs=(n_par - 1) // 2)
+            op = DEM(F=F, gamma=case["gamma"], de_repair=rep_arg, n_diffs=(n_par - 1) // 2)
+            if case.get("repair_as") == "bad-name":
+                rec.err = "ctor accepted an unknown repair name"
+                return rec
         except Exception as e:
             rec.err = "ctor %s: %s" % (type(e).__name__, e)
+            if case.get("repair_as") == "bad-name" and isinstance(e, KeyError):
+                rec.cfg["refused"] = True
             return rec
         np.random.seed(case["seed"])
         Xarg = X.copy()
@@ -180,6 +192,8 @@ class Dem:
     @staticmethod
     def encode(rec):
         c = rec.cfg
+        if c.get("refused"):
+            raise ValueError("skipped")
         X = rec.inp["X"]
         t = ["dem"] + _f_tokens(c["F"]) + _opt_f(c["gamma"])
         t += _rep_tokens(c["repair"] if c["mode"] != "mutation" else None, rec.inp["xl"], rec.inp["xu"])
@@ -213,6 +227,8 @@ class Dem:
     # ---- oracles ----
     @staticmethod
     def oracle_C01(rec):
+        if rec.cfg.get("refused"):
+            return []
         if rec.err is not None:
             return ["DEM raised: " + rec.err]
         if rec.cfg["repair"] is None or rec.cfg["mode"] == "mutation":
@@ -227,6 +243,8 @@ class Dem:
     @staticmethod
     def oracle_C11(rec):
         import comp_repair
+        if rec.cfg.get("refused"):
+            return []
         if rec.err is not None:
             return ["DEM raised: " + rec.err]
         if rec.cfg["repair"] is None or rec.cfg["mode"] == "mutation":
@@ -240,6 +258,8 @@ class Dem:
 
     @staticmethod
     def oracle_C10(rec):
+        if rec.cfg.get("refused"):
+            return []
         if rec.err is not None:
             return ["DEM raised: " + rec.err]
         bad = list(rec.frames)
